@@ -139,7 +139,8 @@ class C15(Prop):
                                             "%s expected %s" % (ns, k, nb, kb, ab(ns, k), ab(nb, kb), r, want)))
                 else:
                     loc = args[2]
-                    if ab(ns, k) != loc and r != "R False,val i:1,KeyError|True,val i:2,val i:1|" + ab(ns, k):
+                    if ab(ns, k) != loc and r != "R False,val i:1,KeyError|True,val i:2,val i:1|" + ab(ns, k) + \
+                            "|AttributeError,val i:1|val i:5,KeyError":
                         out.append(viol("remap-target", "key %r of Client(%r) remapped to %s: set(overwrite=False) with "
                                         "(target occupied | own name occupied) -> %s" % (k, ns, loc, r)))
                 continue
